@@ -115,6 +115,8 @@ pub struct Net {
     /// when set, every hanging dial / inbound upgrade fails instead (faults have stopped)
     pub hangs_released: bool,
     pub upgrade_wakers: Vec<Waker>,
+    /// scheduler units of the tasks each node's Swarm spawned (pending + established connection tasks)
+    pub tasks: BTreeMap<usize, Vec<UnitId>>,
 }
 
 thread_local! {
@@ -136,6 +138,7 @@ impl Net {
             auth_log: vec![],
             hangs_released: false,
             upgrade_wakers: vec![],
+            tasks: BTreeMap::new(),
         }
     }
 }
@@ -681,6 +684,7 @@ pub struct SimExecutor {
 
 impl libp2p_swarm::Executor for SimExecutor {
     fn exec(&self, future: Pin<Box<dyn Future<Output = ()> + Send>>) {
-        spawn_boxed(format!("n{}-task", self.node), future);
+        let u = spawn_boxed(format!("n{}-task", self.node), future);
+        with_net(|n| n.tasks.entry(self.node).or_default().push(u));
     }
 }
